@@ -522,6 +522,11 @@ def gen_cases(ctx, n):
             if rng.random() < 0.2:
                 c['pp'] = True                     # the classes of this case are declared under postponed annotations
             cases.append(c)
+            if rng.random() < 0.5 and not c.get('skip_ref'):
+                # sequence on one object: after all routes the object is edited IN PLACE into a second content and
+                # serialized again; the second content is also a case of its own (fresh object, decided against the reference)
+                c['x2'] = G.rand_val(rng, t)
+                cases.append({'kind': 'typed', 't': t, 'x': c['x2'], **({'pp': True} if c.get('pp') else {})})
     return [finish_case(c) for c in cases]
 
 
@@ -544,6 +549,8 @@ def evaluate(cases, results, shard=75):
             mism.add((i, -1)); ofail.add((i, -1, 0))
         else:
             good.append((i, c, r))
+            if r.get('mut') and 'same' in r['mut'] and not r['mut']['same']:
+                ofail.add((i, 90, 0))                 # in-place edit then re-encode != a fresh object of the same content
     shards, maps = [], []
     for k in range(0, len(good), shard):
         part = good[k:k + shard]
